@@ -18,14 +18,16 @@ open RtcModel.Latch RtcModel.LatchSpec RtcModel.Generated
 
 /-- generated-constant obligation: the byte reads of `classify` stay below the lengths tested
 before them (so `byteAt`'s default is never observed), the fields have the widths the big-endian
-reads assume, the demux ranges are disjoint, and the counters are `u8` / sequence numbers `u16`. -/
+reads assume, the demux ranges are disjoint, and the counters are `u8` / sequence numbers `u16`; the doc comment still lists the rules in the order marker, run,
+timeout (the precedence `LatchSpec.Documented` encodes). -/
 theorem const_layout :
     latchRtcpPtOff < latchRtcpMinLen ∧ latchSsrcEnd < latchMinRtpLen ∧ latchSeqEnd < latchMinRtpLen ∧
     latchTsEnd < latchMinRtpLen ∧ latchMarkerOff < latchMinRtpLen ∧
     latchSsrcEnd + 1 - latchSsrcOff = 4 ∧ latchSeqEnd + 1 - latchSeqOff = 2 ∧ latchTsEnd + 1 - latchTsOff = 4 ∧
     latchMarkerMask = 128 ∧
     dtlsLo < dtlsHi ∧ dtlsHi ≤ rtpLo ∧ rtpLo < rtpHi ∧ rtcpPtLo ≤ rtcpPtHi ∧ rtcpPtHi < 256 ∧
-    totalMax = 255 ∧ countMax = 255 ∧ consecMax = 255 ∧ seqMod = 65536 ∧ probMaxBits = probTotalBits := by decide
+    totalMax = 255 ∧ countMax = 255 ∧ consecMax = 255 ∧ seqMod = 65536 ∧ probMaxBits = probTotalBits ∧
+    docRuleMarkerIdx = 1 ∧ docRuleRunIdx = 2 ∧ docRuleTimeoutIdx = 3 := by decide
 
 /-! ### Once committed, nothing but a signaling reset moves the destination -/
 
@@ -186,6 +188,7 @@ theorem winner_matches_documented_rules (p : Prob) (w : Addr) (h : winner p = so
       simp [hrun] at h
       have hno2 : ¬ ∃ c, Rule2 p c := by
         rintro ⟨c, hc, hcc, ht⟩
+        simp at hcc ht
         rcases runWinner_none p hrun with h' | h'
         · simp at h'; omega
         · have := h' c hc; simp at this; omega
@@ -213,6 +216,7 @@ theorem documented_decision_is_taken (p : Prob) (h : ∃ w, Documented p w) : (w
       · obtain ⟨c, hc, _⟩ := h
         exact absurd ⟨c, hc⟩ hno1
       · obtain ⟨_, c, ⟨hc, hcc, ht⟩, _⟩ := h
+        simp at hcc ht
         rcases runWinner_none p hrun with h' | h'
         · simp at h'; omega
         · have := h' c hc; simp at this; omega
